@@ -119,16 +119,16 @@ def load_lock():
 EVAL_ROLES = {'op_base', 'op_base_as_node', 'op_override', 'closure', 'builtin', 'helper', 'constant'}
 PROP_ROLES = {
     'C01': EVAL_ROLES | {'scoped_dict_method', 'sq_parser'},
-    'C02': EVAL_ROLES | {'sq_parser'}, 'C03': EVAL_ROLES | {'sq_parser'},
-    'C04': EVAL_ROLES, 'C05': {'builtin', 'helper'},
+    'C02': EVAL_ROLES | {'sq_parser'}, 'C03': EVAL_ROLES | {'sq_parser', 'parser_action'},
+    'C04': EVAL_ROLES | {'sq_parser'}, 'C05': {'builtin', 'helper', 'sq_parser'},
     'C06': {'parser_action', 'token_rule', 'sq_parser'},
     'C07': None, 'C08': EVAL_ROLES | {'token_rule'},
-    'C09': {'op_override', 'closure', 'parser_action'},
+    'C09': {'op_override', 'closure', 'parser_action', 'builtin', 'helper'},
     'C10': EVAL_ROLES | {'scoped_dict_method', 'sq_parser'},
-    'C11': None, 'C12': {'op_override', 'builtin', 'helper'}, 'C13': {'builtin', 'helper'},
-    'C14': {'op_override', 'builtin', 'helper'}, 'C15': {'token_rule', 'parser_action', 'sq_parser'},
-    'C16': None, 'C17': None, 'C18': {'op_override', 'closure', 'sq_parser', 'token_rule', 'parser_action'},
-    'C19': {'builtin', 'helper'}, 'C20': {'token_rule', 'parser_action', 'sq_parser'},
+    'C11': None, 'C12': {'op_override', 'builtin', 'helper'}, 'C13': {'builtin', 'helper', 'op_override', 'closure', 'sq_parser'},
+    'C14': {'op_override', 'builtin', 'helper', 'parser_action'}, 'C15': {'token_rule', 'parser_action', 'sq_parser'},
+    'C16': None, 'C17': None, 'C18': {'op_override', 'closure', 'sq_parser', 'token_rule', 'parser_action', 'scoped_dict_method'},
+    'C19': {'builtin', 'helper', 'sq_parser'}, 'C20': {'token_rule', 'parser_action', 'sq_parser'},
 }
 
 
